@@ -347,14 +347,14 @@ def no_shrink(bucket: str) -> bool:
 
 def frequency_floor(bucket: str) -> int:
     """Garbage-text call sites need >=3 distinct inputs in one run; everything strict needs one."""
-    return 3 if bucket.startswith(("garbage|", "accepted|")) else 1
+    return 3 if bucket.startswith(("garbage|", "accepted|")) else 1  # strict|, prefix| (exhaustive streams) and regress: need one
 
 
 SWEEP_PARTS = 8
 
 
 def plan(tier):
-    sweep = [{"kind": "sweep", "part": i} for i in range(SWEEP_PARTS)]
+    sweep = [{"kind": "sweep", "part": i} for i in range(SWEEP_PARTS)] + [{"kind": "prefix", "part": i, "parts": 8} for i in range(8)]
     if tier == "quick":
         return sweep + [{"n": 1200, "depth": 3}] * 16
     return sweep + [{"n": 40000, "depth": 3}] * 40 + [{"n": 8000, "depth": 5}] * 8
@@ -405,8 +405,59 @@ def _preload(res, only_bucket):
     return True
 
 
+def prefix_sweep(part, parts, res, only_bucket=None):
+    """EXHAUSTIVE stream: every proper token prefix of every fixture statement, parsed in the statement's dialect (error level cycles
+    with the statement index). End-of-input inside a construct is where token-collecting loops and 'expect )' paths go wrong.
+    Deterministic (no random draw): its buckets ('prefix|parse|...') need one hit and the sites the unchanged tree shows are catalogued."""
+    import sqlglot
+    from sqlglot import ErrorLevel
+    from sqlglot.dialects.dialect import Dialect
+    from sqlglot.errors import SqlglotError
+
+    n = 0
+    for i, (d, text) in enumerate(corpus()):
+        if i % parts != part:
+            continue
+        level = LEVELS[i % len(LEVELS)]
+        try:
+            toks = Dialect.get_or_raise(d or None).tokenize(text)
+        except Exception:
+            continue
+        seen = set()
+        for tok in toks[:-1]:
+            prefix = text[: tok.end + 1]
+            if prefix in seen:
+                continue
+            seen.add(prefix)
+            n += 1
+            counter = _Counter(bound(len(prefix)))
+            b = None
+            try:
+                sys.setprofile(counter)
+                try:
+                    sqlglot.parse(prefix, read=d or None, error_level=ErrorLevel[level])
+                finally:
+                    sys.setprofile(None)
+            except (SqlglotError, RecursionError):
+                pass
+            except WorkExceeded:
+                b = "prefix|work-bound-exceeded|parse"
+                det = f"{d or 'base'} {level}: more than {counter.limit} calls for {len(prefix)} characters: {prefix[:300]!r}"
+            except Exception as e:
+                b = f"prefix|parse|{type(e).__name__}|{_site(e)}"
+                det = f"{d or 'base'} {level}: {prefix[:400]!r}: {type(e).__name__}: {str(e)[:200]}"
+            if b and (only_bucket is None or b == only_bucket):
+                res.fail(b, {"text": prefix, "dialect": d, "other": "", "level": level, "prefix": True}, det)
+            res.evaluations += 1
+    res.classes["class:P"] += n
+    res.extra["prefixes_parsed"] = res.extra.get("prefixes_parsed", 0) + n
+
+
 def run_shard(spec, seed, res, only_bucket=None):
     if not _preload(res, only_bucket):
+        return None
+    if spec.get("kind") == "prefix":
+        prefix_sweep(spec["part"], spec["parts"], res, only_bucket)
         return None
     if spec.get("kind") == "sweep":
         sweep(spec["part"], res, only_bucket)
@@ -416,6 +467,9 @@ def run_shard(spec, seed, res, only_bucket=None):
 
 def replay(case):
     logging.getLogger("sqlglot").setLevel(logging.CRITICAL)
+    if case.get("prefix"):
+        f, _ = run_one(case["text"], case["dialect"], "", case["level"], True)
+        return [("prefix|" + b, d) for b, d in f if b.startswith(("parse|", "work-bound"))]
     if "text" in case:
         f, _ = run_one(case["text"], case["dialect"], case.get("other", ""), case["level"], True, exclude=not case.get("no_exclusion"))
         return [(("strict|" if case.get("strict") else "garbage|") + b, d) for b, d in f]
